@@ -17,6 +17,8 @@ pub const K_REMOVE: u8 = 5;
 pub const K_RENAME_FROM: u8 = 6;
 pub const K_RENAME_TO: u8 = 7;
 pub const K_RENAME_BOTH: u8 = 8;
+/// queue overflow: an event without any path (injected by the fault `notify.rescan`)
+pub const K_RESCAN: u8 = 9;
 
 /// One inotify-level event: kind code and path list.
 pub type Ev = (u8, Vec<PathBuf>);
@@ -80,15 +82,38 @@ pub fn lookup_var(vars_dir: &Path, root: &Path, cwd: &Path, key: &str) -> Vec<u8
     if let Ok(rel) = cwd.strip_prefix(root) {
         let m = rel.to_string_lossy().replace('/', "+");
         if let Ok(v) = std::fs::read(vars_dir.join(format!("{}__{}", m, key))) {
-            return v;
+            return expand_big(v);
         }
     }
-    std::fs::read(vars_dir.join(key)).unwrap_or_default()
+    expand_big(std::fs::read(vars_dir.join(key)).unwrap_or_default())
+}
+
+/// `!big:<n>:<rest>` stands for n filler bytes followed by <rest> (a command printing more than
+/// a pipe buffer, without carrying that text in every scenario file).
+fn expand_big(v: Vec<u8>) -> Vec<u8> {
+    if let Some(body) = v.strip_prefix(b"!big:") {
+        if let Some(pos) = body.iter().position(|&b| b == b':') {
+            if let Ok(n) = String::from_utf8_lossy(&body[..pos]).parse::<usize>() {
+                let mut out = Vec::with_capacity(n + body.len());
+                for i in 0..n.min(4 << 20) {
+                    out.push(b'a' + (i % 23) as u8);
+                }
+                out.extend_from_slice(&body[pos + 1..]);
+                return out;
+            }
+        }
+    }
+    v
 }
 
 /// Decode the path syntax of plans and scenarios: `\xNN` escapes for arbitrary bytes.
 pub fn decode_path(s: &str) -> PathBuf {
     use std::os::unix::ffi::OsStringExt;
+    PathBuf::from(OsString::from_vec(decode_bytes(s)))
+}
+
+/// `\xNN` escapes for arbitrary bytes (paths, and the values printed by `@cmd` scripts).
+pub fn decode_bytes(s: &str) -> Vec<u8> {
     let b = s.as_bytes();
     let mut out = Vec::with_capacity(b.len());
     let mut i = 0;
@@ -103,7 +128,7 @@ pub fn decode_path(s: &str) -> PathBuf {
         out.push(b[i]);
         i += 1;
     }
-    PathBuf::from(OsString::from_vec(out))
+    out
 }
 
 /// Applies one operation to the real file system. `root` is the case root that relative paths
@@ -219,7 +244,7 @@ pub fn apply_plain(root: &Path, vars_dir: &Path, op: &FsOp, clock: &mut u64) -> 
         }
         FsOp::SetVar { key, value } => {
             let _ = std::fs::create_dir_all(vars_dir);
-            let _ = std::fs::write(vars_dir.join(key), value.as_bytes());
+            let _ = std::fs::write(vars_dir.join(key), decode_bytes(value));
             tick();
             vec![]
         }
@@ -480,6 +505,13 @@ pub fn close_watcher(id: usize) {
 /// callback, outside any borrow of the runtime.
 pub fn deliver(watcher: usize) {
     let (paths, handler) = crate::rt::with(|rt| {
+        if !rt.vfs.watchers[watcher].closed && !rt.vfs.watchers[watcher].dead && rt.fault("notify.rescan").is_some() {
+            // the kernel's event queue overflowed some time before this event: notify first
+            // hands over a path-less "rescan" event (the events that were dropped concerned
+            // files nobody declared; what is still queued is delivered afterwards)
+            rt.vfs.watchers[watcher].queue.push_front((K_RESCAN, vec![]));
+            rt.add_event(EvKind::FsDeliver { watcher, paths: vec![] });
+        }
         let w = &mut rt.vfs.watchers[watcher];
         if w.closed {
             return (None, None);
